@@ -160,6 +160,8 @@ class Ctx:
             r2 = self.tlc("Frontend", "ReadOnlyGate", cfg_text="SPECIFICATION Spec\nCONSTANTS MaxLen = %d\nCHECK_DEADLOCK FALSE\n" % maxlen,
                           workers=8, timeout=1500, copy_suffix="-gram")
             sk = self.printed_json(r2.out)
+            r3 = self.tlc("Frontend", "WithGen", "WithGen.cfg", workers=1, timeout=900, copy_suffix="-gram")
+            recs += self.printed_json(r3.out)
             if len(recs) < 5000 or len(sk) < 100:
                 raise ToolFailure("grammar generators printed %d expressions and %d skeletons:\n%s" % (len(recs), len(sk), (r.out + r2.out)[-1500:]))
             write_ndjson(path, recs + sk)
